@@ -39,7 +39,7 @@ def strategy(tier: str):
     n = 25 if tier == 'quick' else 60
     one = lambda s_: s_.map(lambda o: [o])
     chunks = st.lists(st.one_of(one(c05.resp_op()), one(c05.resp_op()), one(c05.tick_op), one(listener_op),
-                                c05.flush_triple()), min_size=1, max_size=n // 2)
+                                c05.flush_triple(), c05.renumber()), min_size=1, max_size=n // 2)
     ops = chunks.map(lambda cs: [op for c in cs for op in c][:n])
     return st.fixed_dictionaries({'listeners': st.integers(1, 4), 'ops': ops})
 
